@@ -12,7 +12,7 @@ import (
 func init() {
 	register("C12", &propDef{
 		Title: "Failures are reported, never turned into silently partial results",
-		Rules: []func(*Checker){ruleC12Errors, ruleC12Illegal, ruleC12Whole, ruleC12Poison, ruleC12Closed, ruleC12Manifest, ruleC12Diags, ruleC12DiagCopy, ruleRootLink("C12.rootlink"), ruleTraceCalls("C12.calls"), ruleLockBalanced("C12.balanced"), ruleC12DiagSource},
+		Rules: []func(*Checker){ruleC12Errors, ruleC12Illegal, ruleC12Whole, ruleC12Poison, ruleC12Closed, ruleC12Manifest, ruleC12Diags, ruleC12DiagCopy, ruleRootLink("C12.rootlink"), ruleTraceCalls("C12.calls"), ruleLockBalanced("C12.balanced"), ruleC12DiagSource, ruleFilesClosed("C12.closed")},
 		NotDecided: []string{
 			"behaviour at a given byte offset; what archive/tar and compress/gzip report on truncation (library)",
 			"which error text is produced",
@@ -2026,4 +2026,190 @@ func rangeRewrite(p *Prog, host *ssa.Function, isPtr func(ssa.Value) bool, resul
 		}
 	}
 	return
+}
+// ruleFilesClosed — what is opened is closed.
+func ruleFilesClosed(id string) func(*Checker) {
+	return func(c *Checker) {
+		c.rule(id, "Every file opened in slug, unpackinfo, ignorefiles and sourcebundle (os.Open, os.Create, os.OpenFile) is closed: on its ok edge a deferred Close of that file is registered before anything can return, or every path to a return passes a Close of it — unless the file is handed on (returned, stored, or passed to a module function). Pack opens one file per entry: without the Close the descriptors pile up until the garbage collector gets to them, and a large tree fails with 'too many open files'.", 3)
+		p := c.P
+		pkgs := map[string]bool{p.PkgPath("slug"): true, p.PkgPath("unpackinfo"): true, p.PkgPath("ignorefiles"): true, p.PkgPath("sourcebundle"): true}
+		for _, fn := range p.Funcs {
+			outer := p.Outer(fn)
+			if outer.Package() == nil || !pkgs[outer.Package().Pkg.Path()] {
+				continue
+			}
+			for _, ci := range callsTo(fn, func(o *types.Func) bool {
+				return isFunc(o, "os", "Open") || isFunc(o, "os", "Create") || isFunc(o, "os", "OpenFile")
+			}) {
+				cl, ok := ci.(*ssa.Call)
+				if !ok {
+					continue
+				}
+				f := extractOf(cl, 0)
+				if f == nil {
+					continue
+				}
+				isFile := func(v ssa.Value) bool {
+					v = canon(v)
+					if v == f {
+						return true
+					}
+					// a variable re-assigned by a second open on a retry path: any file of this function counts
+					if ex, ok := v.(*ssa.Extract); ok && ex.Index == 0 {
+						if c2, ok := ex.Tuple.(*ssa.Call); ok && (isFunc(calleeObj(c2), "os", "Open") || isFunc(calleeObj(c2), "os", "Create") || isFunc(calleeObj(c2), "os", "OpenFile")) {
+							return true
+						}
+					}
+					var viaPhi func(x ssa.Value, d int) bool
+					viaPhi = func(x ssa.Value, d int) bool {
+						ph, ok := x.(*ssa.Phi)
+						if !ok || d > 4 {
+							return false
+						}
+						for _, e := range ph.Edges {
+							if canon(e) == f || viaPhi(e, d+1) {
+								return true
+							}
+						}
+						return false
+					}
+					return viaPhi(v, 0)
+				}
+				isClose := func(in ssa.Instruction) bool {
+					cc, ok := in.(ssa.CallInstruction)
+					if !ok {
+						return false
+					}
+					o := calleeObj(cc)
+					if o == nil || o.Name() != "Close" || len(cc.Common().Args) == 0 {
+						return false
+					}
+					return isFile(cc.Common().Args[0])
+				}
+				// handed on?
+				handed := false
+				var visit func(v ssa.Value, d int)
+				visit = func(v ssa.Value, d int) {
+					if d > 3 || v.Referrers() == nil {
+						return
+					}
+					for _, r := range *v.Referrers() {
+						switch x := r.(type) {
+						case *ssa.Return:
+							handed = true
+						case *ssa.Store:
+							if x.Val == v {
+								if _, isAl := x.Addr.(*ssa.Alloc); !isAl {
+									handed = true
+								}
+							}
+						case *ssa.Phi:
+							visit(x, d+1)
+						case *ssa.MakeInterface:
+							// io.Copy(dst, file), gzip.NewWriter(file): used, not owned
+						case ssa.CallInstruction:
+							if g := x.Common().StaticCallee(); g != nil && p.InModule(g) {
+								for _, a := range x.Common().Args {
+									if a == v {
+										handed = true
+									}
+								}
+							}
+						}
+					}
+				}
+				visit(f, 0)
+				name := p.FuncName(fn)
+				construct := "file opened by " + shortCallee(fullName(calleeObj(cl)))
+				if handed {
+					c.pass(id, name, construct, p.Pos(cl.Pos()), "handed on (returned, stored or passed to a module function)")
+					continue
+				}
+				okE, _ := okEdgesOfCall(cl)
+				closed := false
+				// a deferred Close registered on the ok path
+				eachInstr(fn, func(in ssa.Instruction) {
+					if d, ok := in.(*ssa.Defer); ok && isClose(d) && (len(okE) == 0 || guarded(d.Block(), okE) || d.Block() == cl.Block()) {
+						closed = true
+					}
+				})
+				if !closed {
+					// or, from every use of the file, every path to a return passes a Close (a path that
+					// returns before the file was ever used is the failed-open path)
+					var uses []ssa.Instruction
+					var collect func(v ssa.Value, d int)
+					seenV := map[ssa.Value]bool{}
+					collect = func(v ssa.Value, d int) {
+						if d > 3 || seenV[v] || v.Referrers() == nil {
+							return
+						}
+						seenV[v] = true
+						for _, r := range *v.Referrers() {
+							switch x := r.(type) {
+							case *ssa.Phi:
+								collect(x, d+1)
+							case *ssa.MakeInterface:
+								collect(x, d+1)
+							case *ssa.ChangeInterface:
+								collect(x, d+1)
+							case ssa.CallInstruction:
+								if !isClose(x) {
+									uses = append(uses, x)
+								}
+							}
+						}
+					}
+					collect(f, 0)
+					closed = len(uses) > 0
+					for _, u2 := range uses {
+						if okc, _ := mustPassOK(u2, isClose, nil, nil); !okc {
+							closed = false
+						}
+					}
+					if len(uses) == 0 {
+						// never used: closed somewhere at least
+						eachInstr(fn, func(in ssa.Instruction) {
+							if isClose(in) {
+								closed = true
+							}
+						})
+					}
+				}
+				c.check(closed, id, name, construct, p.Pos(cl.Pos()), "closed on every path (deferred, or explicitly before every return)", "the file is not closed on some path to a return (no deferred Close, no Close before the return): one descriptor leaks per call — Pack opens a file per entry, and a tree larger than the descriptor limit fails with 'too many open files'")
+			}
+		}
+	}
+}
+
+// C15.retry — a read-only file in the way is made writable before the retry.
+func ruleC15Retry(c *Checker) {
+	const R = "C15.retry"
+	c.rule(R, "In Unpack, a second os.Create of the entry path on the os.IsPermission edge of the first one's error is preceded, on that edge, by an os.Chmod of the same path: a later entry for a path an earlier entry made read-only must win, and without the chmod the retry fails exactly as the first attempt did (for a caller that is not root).", 1)
+	p := c.P
+	u := getUnpackCtx(c, R)
+	if u == nil {
+		return
+	}
+	fn := u.Unpack
+	permT, _ := condEdges(fn, func(v ssa.Value) bool {
+		cl, ok := v.(*ssa.Call)
+		return ok && isFunc(calleeObj(cl), "os", "IsPermission")
+	})
+	n := 0
+	for _, ci := range callsTo(fn, func(o *types.Func) bool { return isFunc(o, "os", "Create") || isFunc(o, "os", "OpenFile") }) {
+		if len(permT) == 0 || !guarded(ci.Block(), permT) {
+			continue
+		}
+		n++
+		chm := false
+		for _, c2 := range callsTo(fn, func(o *types.Func) bool { return isFunc(o, "os", "Chmod") }) {
+			if guarded(c2.Block(), permT) && dominates(c2, ci) && (sameLoc(c2.Common().Args[0], ci.Common().Args[0]) || canon(c2.Common().Args[0]) == canon(ci.Common().Args[0])) {
+				if k, isC := constInt(c2.Common().Args[1]); isC && k&0200 != 0 {
+					chm = true
+				}
+			}
+		}
+		c.check(chm, R, p.FuncName(fn), fmt.Sprintf("retry %d after making the path writable", n), p.Pos(ci.Pos()), "os.Chmod(path, owner-writable mode) before the second create", "the create is retried on a permission error without the path having been made writable first: the retry fails the same way, so an entry cannot replace an earlier read-only entry for the same path (the last entry no longer wins)")
+	}
+	c.check(n > 0, R, p.FuncName(fn), "permission retry", p.Pos(fn.Pos()), fmt.Sprintf("%d retry site(s)", n), "Unpack no longer retries the create of a file whose earlier entry was read-only")
 }
